@@ -14,7 +14,7 @@ def rnd_bytes(rng, n):
 
 class Check(PropertyCheck):
     pid = "C14"
-    gen_files = ["GenSecurity"]
+    gen_files = ["GenSecurity", "GenNetInfoFn"]
     model_imports = ["gen.GenSecurity", "model.NetInfo"]
     run_expr = "run_netinfo_case"
     case_type = "(N * N * N * bytes * netinfo)"
